@@ -175,10 +175,65 @@ func TestClockSeamCompilesAndJumps(t *testing.T) {
 		os.WriteFile(filepath.Join(dir, rel), []byte(src), 0644)
 	}
 	w("go.mod", "module example.com/x\n\ngo 1.11\n")
-	w("a.go", "package x\n\nimport (\n\t\"time\"\n)\n\nvar start = time.Now()\n\nfunc Idle() time.Duration { return time.Since(start) }\n\nfunc D() time.Duration { return 3 * time.Second }\n\nvar _ = time.RFC3339\nvar _ time.Month = time.January\nvar T *time.Timer\n")
+	w("a.go", "package x\n\nimport (\n\t\"time\"\n)\n\nvar start = time.Now()\n\nfunc Idle() time.Duration { return time.Since(start) }\n\nfunc D() time.Duration { return 3 * time.Second }\n\nvar _ = time.RFC3339\nvar _ time.Month = time.January\nvar T *time.Timer\n\nfunc After1h() <-chan time.Time { return time.After(time.Hour) }\n\nfunc Stopped1h() <-chan time.Time { t := time.NewTimer(time.Hour); t.Stop(); return t.C }\n\nfunc Janitor() <-chan time.Time { return time.NewTicker(10 * time.Minute).C }\n\nfunc Sleep1h() { time.Sleep(time.Hour) }\n\nfunc ShortTimer() time.Duration { s := time.Now(); <-time.After(20 * time.Millisecond); return time.Since(s) }\n")
 	w("internal/y/y.go", "package y\n\nimport t \"time\"\n\nfunc Later(x t.Time) bool { return t.Now().After(x) }\n")
 	w("cmd/tool/main.go", "package main\n\nimport \"time\"\n\nfunc main() { println(time.Now().Unix()) }\n")
-	w("x_test.go", "package x\n\nimport (\n\t\"testing\"\n\n\t\"example.com/x/zzclock\"\n)\n\nfunc TestJump(t *testing.T) {\n\ta := Idle()\n\tzzclock.Jump(3600 * 1000)\n\tif b := Idle(); b-a < 3599*1e9 || b-a > 3700*1e9 {\n\t\tt.Fatal(a, b)\n\t}\n}\n")
+	w("x_test.go", `package x
+
+import (
+	"testing"
+	"time"
+
+	"example.com/x/zzclock"
+)
+
+func TestJump(t *testing.T) {
+	a := Idle()
+	zzclock.Jump(3600 * 1000)
+	if b := Idle(); b-a < 3599*1e9 || b-a > 3700*1e9 {
+		t.Fatal(a, b)
+	}
+}
+
+func TestTimers(t *testing.T) {
+	hour, stopped := After1h(), Stopped1h()
+	ticks := Janitor()
+	slept := make(chan bool, 1)
+	go func() { Sleep1h(); slept <- true }()
+	time.Sleep(20 * time.Millisecond)
+	select {
+	case <-hour:
+		t.Fatal("fired early")
+	default:
+	}
+	if n := zzclock.Jump(3600*1000 + 1); n < 3 {
+		t.Fatal("timers fired by the jump:", n)
+	}
+	select {
+	case <-hour:
+	case <-time.After(2 * time.Second):
+		t.Fatal("After(1h) did not fire after a jump of 1 h")
+	}
+	select {
+	case <-slept:
+	case <-time.After(2 * time.Second):
+		t.Fatal("Sleep(1h) did not return after a jump of 1 h")
+	}
+	select {
+	case <-ticks:
+	case <-time.After(2 * time.Second):
+		t.Fatal("ticker did not tick")
+	}
+	select {
+	case <-stopped:
+		t.Fatal("stopped timer fired")
+	case <-time.After(30 * time.Millisecond):
+	}
+	if d := ShortTimer(); d < 15*time.Millisecond || d > time.Second {
+		t.Fatal("a 20 ms timer without jumps took", d)
+	}
+}
+`)
 	rep, err := Clock(dir, goroot)
 	if err != nil {
 		t.Fatal(err)
@@ -186,7 +241,7 @@ func TestClockSeamCompilesAndJumps(t *testing.T) {
 	if strings.Join(rep.Rewritten, ",") != "a.go,internal/y/y.go" {
 		t.Fatal(rep.Rewritten)
 	}
-	cmd := exec.Command("go", "test", "./...")
+	cmd := exec.Command("go", "test", "-race", "./...")
 	cmd.Dir = dir
 	cmd.Env = append(os.Environ(), "GOFLAGS=-mod=mod", "GOPROXY=off", "GOSUMDB=off", "GOTOOLCHAIN=local")
 	if out, err := cmd.CombinedOutput(); err != nil {
